@@ -236,7 +236,8 @@ func TestVerifC07(t *testing.T) {
 	defer vlib.Flush()
 	rapid.Check(t, func(t *rapid.T) {
 		var c c07Case
-		c.Ops = rapid.SliceOfN(rapid.Custom(c07GenOp), 1, 40).Draw(t, "ops")
+		minOps := rapid.SampledFrom([]int{1, 1, 4, 10, 25}).Draw(t, "minops")
+		c.Ops = rapid.SliceOfN(rapid.Custom(c07GenOp), minOps, 40).Draw(t, "ops")
 		fail, rs := c07Run(c)
 		var labels []string
 		if rs.okReservations >= 3 {
